@@ -1,5 +1,5 @@
 """C19 — job filters mean what they say; cleaning commands delete only what is selected."""
-FUNCS = ["JobInformation.state", "VarExpr.get", "ConstantString.get", "BaseInExpr.__init__", "RegexExpr.__init__",
+FUNCS = ["process", "JobInformation.state", "VarExpr.get", "ConstantString.get", "BaseInExpr.__init__", "RegexExpr.__init__",
          "InExpr.filter", "NotInExpr.filter", "RegexExpr.filter", "LogicExpr.filter", "LogicExpr.summary"]
 LEVEL = "proof"
 LEVEL_TEXT = 'Deductive: VarExpr.get, In/NotIn/Regex/Logic filters and JobInformation.state equal their documented meaning; constructor of RegexExpr compiles the operand string; LogicExpr.summary builds the left-associated chain. Bounded: createFilter(text) against an evaluator written from the documentation; jobs clean and orphans --clean on materialised workspaces.'
